@@ -391,13 +391,25 @@ def make_app_classes():
                 self.w.rec.log('c', 'app_reconnect', x=1)
                 await rsocket.reconnect()
 
+        async def _auto_close(self, rsocket, key):
+            # the application gives the connection up for good from inside the notification
+            if self.w.opts.get(key) and self.ep == 'c' and not getattr(self.w, '_auto_closed', False):
+                self.w._auto_closed = True
+                self.w.rec.log('c', 'app_close', x=1)
+                try:
+                    await rsocket.close()
+                finally:
+                    self.w.rec.log('c', 'app_close_returned')
+
         async def on_close(self, rsocket, exception=None):
             self.w.rec.log(self.ep, 'cb_close')
             await self._auto_reconnect(rsocket, 'reconnect_on_close')
+            await self._auto_close(rsocket, 'close_on_close')
 
         async def on_keepalive_timeout(self, time_since_last_keepalive, rsocket):
             self.w.rec.log(self.ep, 'cb_keepalive_timeout', x=int(time_since_last_keepalive.total_seconds() * 1000))
             await self._auto_reconnect(rsocket, 'reconnect_on_timeout')
+            await self._auto_close(rsocket, 'close_on_timeout')
 
     from rsocket.awaitable.collector_subscriber import CollectorSubscriber
 
